@@ -55,7 +55,7 @@ def run(module, cfg, env=None, workers=8, timeout=900, heap="8g", cont=False, si
         res["generated"], res["distinct"] = int(m[-1][0]), int(m[-1][1])
     res["violated"] = re.findall(r"Invariant (\S+) is violated", out) + \
         re.findall(r"Action property (\S+) is violated", out) + \
-        (["<temporal>"] if "Temporal properties were violated" in out else [])
+        (["<temporal>"] if ("Temporal properties were violated" in out or re.search(r"Temporal property \S+ was violated", out)) else [])
     if "Deadlock reached" in out:
         res["violated"].append("<deadlock>")
     for line in out.splitlines():
